@@ -43,6 +43,12 @@ func MakeUserFriendlyError(err error, duration time.Duration, errorContext strin
 		return fmt.Errorf("request cancelled after %.1fs - client disconnected during processing", duration.Seconds())
 
 	case errors.Is(err, context.DeadlineExceeded):
+		// net's own timeout errors (a timed out dial or read) also match DeadlineExceeded.
+		// Keep that cause in the chain so the retry handler still sees a connection failure
+		var opErr *net.OpError
+		if errors.As(err, &opErr) && opErr.Timeout() {
+			return fmt.Errorf("network timeout after %.1fs - unable to connect to LLM backend (check backend availability): %w", duration.Seconds(), opErr)
+		}
 		if responseTimeout > 0 {
 			return fmt.Errorf("request timeout after %.1fs - server timeout of %.1fs exceeded (LLM model taking longer than expected)",
 				duration.Seconds(), responseTimeout.Seconds())
